@@ -13,6 +13,7 @@ The two programs compared, on the same tree `T` and under the same flags:
   (`Props/C22.lean`, `costed_cost_formula`).
 -/
 import ClvmProofs.Lemmas.Interp.ShaTreeProg
+import ClvmProofs.Lemmas.Interp.ShaTreeNative
 import ClvmProofs.Lemmas.RefBase
 import ClvmModel.Interp.CryptoOps
 
@@ -112,6 +113,54 @@ theorem native_lt_clvm (nm : Bool) (t : Tree) : nativeCost nm t < clvmCost nm t 
     simp only [nativeCost, hf, Gen.OP_COST, Gen.QUOTE_COST, Gen.thBaseCost, Gen.thPairCost, Gen.thNewCostPerByte,
       Gen.thMallocCostPerByte, Gen.thMallocBytes, if_true]
     omega
+
+/-- **The native call on the machine.**  Under `ChiaDialect::new(F)` with the model's operator table
+(`cryptoExtra`) and `ENABLE_SHA256_TREE ∈ F`, for every well-formed value `T` and every environment:
+`run_program((sha256tree (q . T)), env)` succeeds — given room for one pair, one 32-byte atom and the
+budget — with the tree hash of `T`, cost exactly `nativeCost` (`= 21 + costSpec`, the C22 formula) and
+those allocations. -/
+theorem native_treehash_cost (cfg : Cfg) (F : Nat) (hS : hasFlag F Gen.FLAG_ENABLE_SHA256_TREE = true)
+    (T env : Val) (hw : T.wf = true) (c0 : Ctr) (mc0 : Nat)
+    (hp : c0.pairs + 1 ≤ Gen.maxNumPairs) (ha : c0.atoms + 2 ≤ Gen.maxNumAtoms)
+    (hh : c0.heap + 32 ≤ c0.heapLimit)
+    (hc : nativeCost (newModel F) T.erase ≤ (if mc0 == 0 then U64_MAX else mc0)) :
+    ∃ fuel0, ∀ fuel, fuel0 ≤ fuel →
+      runProgram cfg (chiaDialect cfg cryptoExtra F) fuel c0 (nativeV T) env mc0 =
+        some (.ok (nativeCost (newModel F) T.erase, Val.mkAtom (TreeHash.treeHash T.erase), c0.bump 2 1 32)) := by
+  have e : nativeCost (newModel F) T.erase = 21 + TreeHash.costSpec (newModel F) T.erase := by
+    simp only [nativeCost, Gen.OP_COST, Gen.QUOTE_COST]
+  rw [e] at hc ⊢
+  exact native_runs (cfg := cfg) (F := F) (env := env) hS T hw c0 mc0 hp ha hh hc
+
+/-- **C23 on the two runs.**  Same tree, same flags (with `ENABLE_SHA256_TREE`), same initial allocator
+and a budget sufficient for the ChiaLisp program: both `run_program` calls succeed, return the same
+hash, and the native call is strictly cheaper. -/
+theorem native_run_lt_clvm_run (cfg : Cfg) (F : Nat) (hS : hasFlag F Gen.FLAG_ENABLE_SHA256_TREE = true)
+    (T : Tree) (c0 : Ctr) (mc0 : Nat)
+    (hd : 4 * depth T + 22 ≤ Gen.STACK_SIZE_LIMIT)
+    (hp : c0.pairs + 13 + (25 * T.pairs + 8 * T.atoms) ≤ Gen.maxNumPairs)
+    (ha : c0.atoms + 1 + T.size ≤ Gen.maxNumAtoms)
+    (hh : c0.heap + 32 * T.size ≤ c0.heapLimit)
+    (hc : clvmCost (newModel F) T ≤ (if mc0 == 0 then U64_MAX else mc0)) :
+    ∃ fuel0 Cn Cl v cn cl, ∀ fuel, fuel0 ≤ fuel →
+      runProgram cfg (chiaDialect cfg cryptoExtra F) fuel c0 (nativeV (Val.ofTree T)) Val.nil mc0 =
+        some (.ok (Cn, v, cn)) ∧
+      runProgram cfg (chiaDialect cfg cryptoExtra F) fuel c0 (Val.ofTree Spec.ShaTree.prog) (Val.ofTree T) mc0 =
+        some (.ok (Cl, v, cl)) ∧ Cn < Cl := by
+  have hlt := native_lt_clvm (newModel F) T
+  have hat : ∀ t : Tree, 1 ≤ t.atoms := by
+    intro t
+    induction t with
+    | atom b => simp [Tree.atoms]
+    | pair l r ihl _ => simp only [Tree.atoms]; omega
+  have hsz : 1 ≤ T.size := by
+    have := hat T
+    simp only [Tree.size]; omega
+  obtain ⟨f1, h1⟩ := native_treehash_cost cfg F hS (Val.ofTree T) Val.nil (Ref.ofTree_wf T) c0 mc0
+    (by omega) (by omega) (by omega) (by rw [Ref.ofTree_erase]; omega)
+  obtain ⟨f2, h2⟩ := clvm_treehash_cost cfg cryptoExtra F T c0 mc0 hd hp ha hh hc
+  rw [Ref.ofTree_erase] at h1
+  refine ⟨max f1 f2, _, _, _, _, _, fun fuel hf => ⟨h1 fuel (by omega), h2 fuel (by omega), hlt⟩⟩
 
 /-- the hypotheses of `clvm_treehash_cost` are satisfiable: the tree `((1 . 2) . "hello")` from a fresh
 allocator with an unlimited budget (cost 7752 under the old model) -/
